@@ -591,7 +591,7 @@ def run_prox_growth(case, drv):
     dt, nd = case["dtype"], case["nd"]
     r = random.Random(case["seed"])
     a = ProximityArchive(solution_dim=1, measure_dim=nd, k_neighbors=1, novelty_threshold=0.0, dtype=NP[dt])
-    side = 64
+    side = 64 if nd > 1 else 512        # (side**nd points to choose `top` <= 270 distinct ones from)
     cells = r.sample(range(side**nd), case["top"])
     pts = [[(c // side**k % side) / 4.0 - 8 for k in range(nd)] for c in cells]
     stored = []
